@@ -38,7 +38,9 @@ func trunc(s string, n int) string {
 }
 
 func observe(ev *bexpr.Evaluator, datum interface{}) (o obsT) {
+	eng.CallBegin(ev, datum)
 	defer func() {
+		eng.CallEnd()
 		if r := recover(); r != nil {
 			o = obsT{panicked: true, msg: fmt.Sprint(r)}
 		}
